@@ -100,3 +100,31 @@ def generate(rng, tier):
 
 def nontrivial(case):
     return nontrivial_default(case)
+
+# ---- in-Coq cross-check of the extraction -------------------------------------------------
+COQ_IMPORTS = "Base X86 AddSub"
+
+def coq_term(case, model):
+    toks = case.split(" ")
+    op, a = toks[0], toks[1:]
+    if sum(len(x) for x in a) > 400:
+        return None
+    two = lambda f: "%s %s %s" % (f, coq_list(a[0]), coq_list(a[1]))
+    if op == "u.add":
+        return two("uadd addsub"), coq_result(model)
+    if op == "u.sub":
+        return two("usub addsub"), coq_result(model)
+    if op == "u.sub_ref_val":
+        return two("usub_ref_val addsub"), coq_result(model)
+    if op == "u.checked_sub":
+        return two("uchecked_sub addsub"), coq_result(model, some=True)
+    if op == "u.cmp":
+        return two("ucmp"), coq_result(model)
+    if op in ("i.add", "i.sub"):
+        f = "iadd" if op == "i.add" else "isub"
+        return "%s addsub %s %s" % (f, coq_bigint(a[0]), coq_bigint(a[1])), coq_result(model)
+    if op == "h.add2c":
+        return two("add2c addsub"), coq_result(model)
+    if op == "h.sub2":
+        return two("sub2 addsub"), coq_result(model)
+    return None
